@@ -50,3 +50,50 @@ void h_memory_grow(void) { bool ok; setup(1); mem_imm(); ASSUME(T[0] == wasmValu
 /* br_table: a contract of this form (three arms, each declaring its label's slot in the symbolic-size declaration array) exhausted 10 GB on
  * minisat and 5 minutes on z3; br_table stays with the enumerated G shapes (C03) - its arms are calls of wasmCWriteGoto, which is under
  * contract for every height and label-stack length through E.h.br / E.h.br_if. */
+
+/* ---- (round 7) which opcode is handed to which runtime function with which result type: the four opcode->function tables of c.c
+ * (wasmCWriteLoadExpr, wasmCWriteStoreExpr, wasmCWriteAtomicLoadExpr, wasmCWriteAtomicStoreExpr) entered with the memarg immediate in
+ * the code buffer (alignment hint: any value < 2^14 in a padded LEB for plain accesses, the natural alignment for atomic ones; offset: any
+ * U32 in a padded 5-byte LEB), at every operand-stack height.  The expected function name, result type and natural alignment of each opcode
+ * come from the instruction's mnemonic in the specification (table MEMOPS in vlib/eexpr.py), not from c.c. ---- */
+#ifdef MEMOP_OPC
+#define MEMOP_STR_(x) #x
+#define MEMOP_STR(x) MEMOP_STR_(x)
+static void memop_setup(WasmMemoryArgumentInstruction* mi) { ND(U32, al); U32 off;
+    mem_setup(mi); off = mi->offset;
+#if MEMOP_KIND >= 2
+    ASSUME(al == MEMOP_ALIGN);
+#else
+    ASSUME(al < (1u << 14));
+#endif
+    g_code[0] = (U8)((al & 0x7f) | 0x80); g_code[1] = (U8)(al >> 7);
+    g_code[2] = (U8)((off & 0x7f) | 0x80); g_code[3] = (U8)(((off >> 7) & 0x7f) | 0x80); g_code[4] = (U8)(((off >> 14) & 0x7f) | 0x80); g_code[5] = (U8)(((off >> 21) & 0x7f) | 0x80); g_code[6] = (U8)(off >> 28);
+    g_codebuf.data = g_code; g_codebuf.length = 7; w.code = &g_codebuf; w.ignore = false; }
+void h_memop(void) { bool ok; WasmMemoryArgumentInstruction mi;
+#if MEMOP_KIND == 0 || MEMOP_KIND == 2
+    setup(1); memop_setup(&mi);
+    X_SLOTREF(H0 - 1, MEMOP_RT); X_LITERAL("=" MEMOP_STR(MEMOP_FN)); x_addr(H0 - 1, T[0], mi.offset); X_LITERAL(");");
+#if MEMOP_KIND == 0
+    ok = wasmCWriteLoadExpr(&w, MEMOP_OPC);
+#else
+    ok = wasmCWriteAtomicLoadExpr(&w, MEMOP_OPC);
+#endif
+    SUCCEEDS(ok, "memop load");
+    OBL(X_MATCHED, "load opcode: writes  s<R><h-1> = <fn>(i->m0, (U64)s<T0><h-1> [+ <offset>U]);  with <fn> the runtime function and R the result type the mnemonic names, the offset the decoded immediate");
+    OBL(g_codebuf.length == 0, "load opcode: consumes exactly its memarg immediate (padded encodings)");
+    post_stack(1, (WasmValueType)MEMOP_RT, "memop load");
+#else
+    setup(2); memop_setup(&mi);
+    X_LITERAL(MEMOP_STR(MEMOP_FN)); x_addr(H0 - 2, T[1], mi.offset); X_LITERAL(","); X_SLOTREF(H0 - 1, T[0]); X_LITERAL(");");
+#if MEMOP_KIND == 1
+    ok = wasmCWriteStoreExpr(&w, MEMOP_OPC);
+#else
+    ok = wasmCWriteAtomicStoreExpr(&w, MEMOP_OPC);
+#endif
+    SUCCEEDS(ok, "memop store");
+    OBL(X_MATCHED, "store opcode: writes  <fn>(i->m0, (U64)s<T1><h-2> [+ <offset>U], s<T0><h-1>);  with <fn> the runtime function the mnemonic names, the offset the decoded immediate");
+    OBL(g_codebuf.length == 0, "store opcode: consumes exactly its memarg immediate (padded encodings)");
+    post_stack_n(2, 0, wasmValueTypeI32);
+#endif
+    CANARY("memop"); }
+#endif
